@@ -6,7 +6,7 @@ from mirsym.values import *
 from mirsym.engine import State, Obligation, some, none, ok
 from mirsym.models import is_ws, str_push
 from .common import *
-from .c01 import process_failed, witness
+from mirsym.harness import process_failed, witness, discharge_known
 
 PID = 'C08'
 
